@@ -31,9 +31,11 @@ ASSUMPTIONS = [
     "class signs are a numpy array of +-1 containing both signs (what test_dim_wise_run_classification passes)",
     "refinement decisions are scripted (errorOperator extension point) so that both twin runs take identical decisions; "
     "identity of scheme and grid points is nevertheless asserted after every evaluation",
-    "tolerances: R 1e-8*max|R| (a cached entry was computed at another position of the grid; the analytic formula cancels in absolute coordinates, rounding seen 2e-12*max|R|, a wrong entry is >=1e-5*max|R|), B 1e-12 absolute (entries are means of hat products <= 1), surpluses 1e-6*max|alpha| and densities 1e-6*max(1,|density|) (only a backstop behind the R/B clauses: the cached R entries "
-    "carry position-dependent rounding of 5e-11*max|R| which the solve amplifies to 5e-10*max|alpha| on the unchanged tree; "
-    "the one real defect seen gives 0.1..5 times max|alpha|); branch comparison 1e-10",
+    "tolerances: R 1e-8*max|R| (a cached entry was computed at another position of the grid and the analytic formula "
+    "cancels in absolute coordinates: rounding seen 5e-11*max|R|; a wrong entry is >=1e-5*max|R| at the depths generated), "
+    "B 1e-12 absolute (entries are means of <=80 hat products <=1; seen 2e-16), surpluses 1e-6*max|alpha| and densities "
+    "1e-6*max(1,|density|) (a backstop behind the R/B clauses: the solve amplifies the R rounding to 5e-10*max|alpha| on "
+    "the unchanged tree, while the one real defect seen gives 0.1..8 times max|alpha|); branch comparison 1e-10 (seen 2e-15)",
     "surpluses/densities of an evaluation are compared only on component grids whose linear system (R,B) agreed; a grid "
     "whose B differs is reported through the B clause (one root cause -> one signature)",
     "the paths sub-check replaces the local constant 200 in a harness-side copy of the library function's code object; "
